@@ -166,6 +166,20 @@ func genScenario() scenario {
 	var s scenario
 	s.m = GenX(rnd)
 	x := XOf(s.m)
+	if rnd.Chance(25) {
+		// several programs recording items of the same names, approved differently per program
+		BigValues = false
+		cfg, files := GenSharedNamesWeek(rnd, x)
+		s.ucfg = cfg
+		progs := map[string]bool{}
+		for _, f := range files {
+			s.files = append(s.files, fileSpec{id: f.ID, omit: f.Omit, counts: f.Counts})
+			progs[f.ID.Program] = true
+		}
+		s.nb = len(progs)
+		out.Note("shared-names-week")
+		return s
+	}
 	s.ucfg = GenConfig(rnd, x)
 	// program builds: the first from the configuration (possibly one field off),
 	// the others differ from the first in exactly one field, or are fresh
@@ -398,6 +412,162 @@ func caseReport(post bool, s scenario) {
 	out.Case(true, f...)
 }
 
+// ---------------------------------------------------------------- several runs of one process on one directory
+
+// observe: the reports of `week` and the count files left, as wire fields
+// (same layout as the tail of a "report" case, without the posted part).
+func observe(tdir telemetry.Dir, week string) []string {
+	localData, errL := os.ReadFile(filepath.Join(tdir.LocalDir(), "local."+week+".json"))
+	uploadData, errU := os.ReadFile(filepath.Join(tdir.LocalDir(), week+".json"))
+	remaining := 0
+	ents, _ := os.ReadDir(tdir.LocalDir())
+	for _, e := range ents {
+		if strings.HasSuffix(e.Name(), ".v1.count") {
+			remaining++
+		}
+	}
+	f := []string{I(int64(remaining))}
+	var local, up telemetry.Report
+	switch {
+	case errL != nil && errU != nil:
+		f = append(f, "none")
+	case errL == nil && errU != nil:
+		if err := json.Unmarshal(localData, &local); err != nil {
+			panic(err)
+		}
+		f = append(f, "local", B(shapeOK(localData)))
+		f = append(f, WReport(&local)...)
+	case errL == nil && errU == nil:
+		if err := json.Unmarshal(localData, &local); err != nil {
+			panic(err)
+		}
+		if err := json.Unmarshal(uploadData, &up); err != nil {
+			panic(err)
+		}
+		f = append(f, "both", B(shapeOK(localData) && shapeOK(uploadData)))
+		f = append(f, WReport(&local)...)
+		f = append(f, WReport(&up)...)
+	default:
+		f = append(f, "upload-without-local")
+	}
+	return f
+}
+
+// writeWeek (re)writes the count files 00.., and returns the wire fields of
+// the directory's count files as the real parser reads them NOW: name, TimeEnd, parsed file.
+func writeWeek(tdir telemetry.Dir, begin, end time.Time, files []fileSpec) []string {
+	f := []string{I(int64(len(files)))}
+	for i, fs := range files {
+		data := EncodeCountFile(MetaString(begin.Format(time.RFC3339), end.Format(time.RFC3339), fs.id, fs.omit), fs.counts)
+		base := fmt.Sprintf("%02d-prog.v1.count", i)
+		name := filepath.Join(tdir.LocalDir(), base)
+		if err := os.WriteFile(name, data, 0666); err != nil {
+			panic(err)
+		}
+		pf, err := counter.Parse(name, data)
+		if err != nil {
+			panic(fmt.Sprintf("the real parser rejects a generated counter file: %v", err))
+		}
+		f = append(f, HS(base), I(end.Unix()))
+		f = append(f, WFile(pf.Meta, pf.Count)...)
+	}
+	return f
+}
+
+// grow: the same programs kept counting (values grow, new counters appear)
+func grow(files []fileSpec, ucfg *telemetry.UploadConfig) []fileSpec {
+	var res []fileSpec
+	for _, fs := range files {
+		n := fileSpec{id: fs.id, omit: fs.omit}
+		seen := map[string]bool{}
+		for _, kv := range fs.counts {
+			seen[kv.K] = true
+			n.counts = append(n.counts, KV{kv.K, kv.V + uint64(rnd.Intn(20))})
+		}
+		for _, kv := range GenCounts(rnd, ucfg, fs.id.Program, 4) {
+			if !seen[kv.K] {
+				seen[kv.K] = true
+				n.counts = append(n.counts, kv)
+			}
+		}
+		res = append(res, n)
+	}
+	if rnd.Chance(30) {
+		id := Pick(rnd, files).id
+		res = append(res, fileSpec{id: id, counts: GenCounts(rnd, ucfg, id.Program, 5)})
+	}
+	return res
+}
+
+// caseSeq: ONE process (this one) runs the uploader two or three times on the
+// same telemetry directory while the count files change between the runs:
+// (a) a run while the week's files are still active, the programs count on,
+// the files expire, a second run; (b) a run that consumes a week, the same
+// file names are written again for the next week, a second run.  Every run is
+// a new uploader (as upload.Run makes one); each run's reports are compared
+// with the model on the files as they are at that run.
+func caseSeq() {
+	s := genScenario()
+	BigValues = false
+	ucfg := s.ucfg
+	dir, err := os.MkdirTemp(root, "t")
+	if err != nil {
+		panic(err)
+	}
+	defer os.RemoveAll(dir)
+	tdir := telemetry.NewDir(dir)
+	os.MkdirAll(tdir.LocalDir(), 0777)
+	os.MkdirAll(tdir.UploadDir(), 0777)
+	end := time.Date(2001+rnd.Intn(90), time.Month(1+rnd.Intn(12)), 1+rnd.Intn(28), 0, 0, 0, 0, time.UTC)
+	begin := end.AddDate(0, 0, -7)
+	if err := tdir.SetModeAsOf("on", begin.AddDate(0, 0, -100)); err != nil {
+		panic(err)
+	}
+	cfgVersion := Pick(rnd, []string{"v0.1.0", "v1.2.3"})
+	type step struct {
+		begin, end, start time.Time
+		files             []fileSpec
+	}
+	var steps []step
+	after := func(e time.Time) time.Time { return e.Add(time.Duration(1+rnd.Intn(15*24*3600)) * time.Second) }
+	files := s.files
+	if rnd.Chance(60) {
+		// (a) active, [active again,] expired
+		steps = append(steps, step{begin, end, begin.Add(time.Duration(rnd.Intn(7*24*3600)) * time.Second), files})
+		if rnd.Chance(30) {
+			files = grow(files, ucfg)
+			steps = append(steps, step{begin, end, end.Add(-time.Duration(rnd.Intn(3600)) * time.Second), files})
+		}
+		files = grow(files, ucfg)
+		steps = append(steps, step{begin, end, after(end), files})
+		out.Note("seq-active-then-expired")
+	} else {
+		// (b) consumed, next week under the same names
+		steps = append(steps, step{begin, end, after(end), files})
+		end2 := end.AddDate(0, 0, 7)
+		files = grow(files, ucfg)
+		steps = append(steps, step{end, end2, after(end2), files})
+		out.Note("seq-consumed-then-next-week")
+	}
+	f := []string{"seq"}
+	f = append(f, WConfig(ucfg)...)
+	f = append(f, HS(cfgVersion), I(int64(len(steps))))
+	for _, st := range steps {
+		m := GenX(rnd)
+		week := st.end.Format("2006-01-02")
+		f = append(f, I(st.start.Unix()), HS(week), HS(""), U(bitsOf(XOf(m))))
+		f = append(f, writeWeek(tdir, st.begin, st.end, st.files)...)
+		crand.Reader = &CycleReader{Data: append(RandBytesFor(rnd, m), RandBytesFor(rnd, m^(1<<uint(rnd.Intn(52))))...)}
+		u := upload.VerifNewUploader(dir, "http://127.0.0.1:1", st.start, ucfg, cfgVersion, nil)
+		if _, err := u.Reports(); err != nil {
+			panic(err)
+		}
+		f = append(f, observe(tdir, week)...)
+	}
+	out.Note(fmt.Sprintf("seq-runs-%d", len(steps)))
+	out.Case(true, f...)
+}
+
 func main() {
 	outPath := os.Args[1]
 	n, _ := strconv.Atoi(os.Args[2])
@@ -419,6 +589,8 @@ func main() {
 			caseReport(false, witnessRate())
 		case i == 6:
 			caseReport(false, witnessValue())
+		case i%10 == 9:
+			caseSeq()
 		case i%10 == 4:
 			caseReport(true, genScenario())
 		default:
